@@ -32,7 +32,7 @@ for name in sorted(os.listdir("seeded")):
     res = []
     try:
         for c in CHECKS.get(name, [name.split("-")[0]]):
-            env = dict(os.environ, VERIF_SEED=seed, POLAR_REPO=REPO)
+            env = dict(os.environ, VERIF_SEED=seed, POLAR_REPO=REPO, VERIF_EVIDENCE_DIR=os.path.join(VERIF, "out", "evidence-scratch"))
             p = subprocess.run(["./check", c, "--tier", "quick"], capture_output=True, text=True, env=env)
             viol = [l for l in p.stdout.splitlines() if l.startswith("VIOLATION")]
             summ = [l for l in p.stdout.splitlines() if "seed=" in l]
